@@ -12,6 +12,9 @@ use hyper_util::rt::{TokioExecutor, TokioIo};
 use std::net::SocketAddr;
 use std::time::Duration;
 
+/// `h2_err` of a stream the client itself cancelled.
+pub const CANCELLED: &str = "cancelled by client";
+
 pub async fn run_conn_h2(
     net: Net,
     world: World,
@@ -102,14 +105,33 @@ pub async fn run_conn_h2(
                 return (hr.req, Err(format!("ready: {e}")));
             }
             let q = world.log(Ev::ReqSent, conn_id, nonce, 0, 0);
-            let resp = match sender.send_request(req).await {
-                Ok(r) => r,
-                Err(e) => return (hr.req, Err(format!("send: {e}"))),
+            let exchange = async {
+                let resp = match sender.send_request(req).await {
+                    Ok(r) => r,
+                    Err(e) => return Err(format!("send: {e}")),
+                };
+                let (parts, body) = resp.into_parts();
+                match body.collect().await {
+                    Ok(b) => Ok((parts, b.to_bytes().to_vec())),
+                    Err(e) => Err(format!("body: {e}")),
+                }
             };
-            let (parts, body) = resp.into_parts();
-            let body = match body.collect().await {
-                Ok(b) => b.to_bytes().to_vec(),
-                Err(e) => return (hr.req, Err(format!("body: {e}"))),
+            let done = if hr.cancel_ms > 0 {
+                match tokio::time::timeout(ms(hr.cancel_ms), exchange).await {
+                    Ok(x) => x,
+                    Err(_) => {
+                        // dropping the exchange resets the stream
+                        world.fault("h2_stream_cancel");
+                        world.log(Ev::ClientGaveUp, conn_id, nonce, 0, 0);
+                        return (hr.req, Err(CANCELLED.to_string()));
+                    }
+                }
+            } else {
+                exchange.await
+            };
+            let (parts, body) = match done {
+                Ok(x) => x,
+                Err(e) => return (hr.req, Err(e)),
             };
             let headers = parts
                 .headers
